@@ -23,6 +23,7 @@ func init() {
 			ruleC04R5(r)
 			ruleResumeRestoresConnected(r, "R6", "Downstream")
 			ruleC04R8(r)
+			ruleC04R9(r)
 			r.borrow("C03", func() { ruleC03R2(r) }) // one alias generator for pre-registered and new aliases
 			ruleLoopDrivers(r, "R7", "the ack flusher stays periodic: in package iscp every receive inside a loop from a time source is a Ticker, a time.After, or a Timer that is re-armed inside the loop when its branch continues the loop", func(fn *ssa.Function) bool { return fnPkgPath(fn) == modPath+"/iscp" }, 1)
 		},
@@ -601,5 +602,99 @@ func ruleC04R8(r *Run) {
 		if k == 0 {
 			r.Check(name+" never skips", true, p.pos(fn.Pos()), name, "no return bypasses the construction of the ack")
 		}
+	}
+}
+
+// ruleC04R9: an alias that has been minted (and will be announced to the broker in the next ack) has to be remembered:
+// as a key of the table through which incoming chunks resolve aliases, and — where the function's own membership test
+// reads a reverse table — as a value of that reverse table. A minted alias that is not recorded makes the next chunk
+// that uses it unresolvable, or is minted again for the same value.
+func ruleC04R9(r *Run) {
+	r.Begin("R9", "a minted alias is recorded: in every Downstream method that calls Next() on an alias generator, the result is used as the key of a map update on a table that is looked up by alias elsewhere in the module, and as the value of a map update on every map field that the method's own membership test looks up", 2)
+	p := r.P
+	// map fields of Downstream that are looked up (resolved) somewhere
+	lookedUp := map[string]bool{}
+	for _, fn := range p.Funcs {
+		if fnPkgPath(fn) != modPath+"/iscp" {
+			continue
+		}
+		allInstrs(fn, func(ins ssa.Instruction) {
+			if lk, ok := ins.(*ssa.Lookup); ok {
+				for _, l := range p.Leaves(lk.X, provOpts{}) {
+					if strings.HasPrefix(l, "field:/iscp.Downstream.") {
+						lookedUp[l[6:]] = true
+					}
+				}
+			}
+		})
+	}
+	n := 0
+	for _, fn := range p.Funcs {
+		if fnPkgPath(fn) != modPath+"/iscp" || recvTypeName(fn) != "Downstream" || fn.Blocks == nil {
+			continue
+		}
+		name := fnName(fn)
+		k := 0
+		allInstrs(fn, func(ins ssa.Instruction) {
+			c, ok := ins.(*ssa.Call)
+			if !ok || !isCallNamed(c, "/wire.AliasGenerator.Next") {
+				return
+			}
+			n++
+			k++
+			var keyOf, valOf []string
+			allInstrs(fn, func(x ssa.Instruction) {
+				mu, isMU := x.(*ssa.MapUpdate)
+				if !isMU {
+					return
+				}
+				for _, l := range p.Leaves(mu.Map, provOpts{}) {
+					if !strings.HasPrefix(l, "field:/iscp.Downstream.") {
+						continue
+					}
+					if canonVal(mu.Key) == ssa.Value(c) || sameValue(mu.Key, c) {
+						keyOf = append(keyOf, l[6:])
+					}
+					if canonVal(mu.Value) == ssa.Value(c) || sameValue(mu.Value, c) {
+						valOf = append(valOf, l[6:])
+					}
+				}
+			})
+			fwd := false
+			for _, t := range keyOf {
+				if lookedUp[t] {
+					fwd = true
+				}
+			}
+			// reverse tables consulted by this function's membership test: lookups on maps not keyed by the alias type
+			var missingRev []string
+			allInstrs(fn, func(x ssa.Instruction) {
+				lk, isLk := x.(*ssa.Lookup)
+				if !isLk || !dominatesInstr(lk, c) {
+					return
+				}
+				mt, isMap := lk.X.Type().Underlying().(*types.Map)
+				if !isMap || !types.Identical(mt.Elem(), c.Type()) {
+					return
+				}
+				for _, l := range p.Leaves(lk.X, provOpts{}) {
+					if strings.HasPrefix(l, "field:/iscp.Downstream.") {
+						has := false
+						for _, v := range valOf {
+							if v == l[6:] {
+								has = true
+							}
+						}
+						if !has {
+							missingRev = append(missingRev, l[6:])
+						}
+					}
+				}
+			})
+			r.Check(fmt.Sprintf("%s alias#%d recorded", name, k), fwd && len(missingRev) == 0, posOf(p, c), name, fmt.Sprintf("the minted alias is stored as key of %v (tables resolved elsewhere: needs at least one) and as value of %v; reverse tables consulted by the membership test but not updated: %v", keyOf, valOf, missingRev))
+		})
+	}
+	if n == 0 {
+		r.Undecided("alias minting sites", "no Downstream method calls AliasGenerator.Next")
 	}
 }
